@@ -41,6 +41,13 @@ CHECKS = {
                      'counters returned by GET /v1/peer/<ip>/statistic are compared with the messages the reference deframer '
                      'finds in the transport write log and in the delivered stream; the deltas are part of the canonical key.',
                 ref='7 C18', note=E1_NOTE),
+    'C02': dict(level='model_checking', engine='E1',
+                technique='explicit-state BFS over adversarial prefixes with a nested deterministic continuation from every state',
+                text='From every state reached by the adversarial exploration (operator never stops) the environment switches '
+                     'to a cooperative peer (policies: refuse the next j connects, then cooperate) and the run must reconnect '
+                     'within idle-hold after each refusal, reach Established within idle_hold + one connection cycle, stay '
+                     'Established for 3 hold times with no NOTIFICATION, and offer an OPEN byte-identical to a freshly booted agent.',
+                ref='7 C02', note=E1_NOTE),
 }
 
 NOT_YET = 'check not built yet in this session (see DESIGN.md section 7 for the plan); not claimed'
